@@ -31,7 +31,8 @@ def build_demo(wt, demo, exe):
         import re
         wraps = sorted(set(re.findall(r"__wrap_([A-Za-z_0-9]+)", open(demo).read())))
         wl = ["-Wl," + ",".join("--wrap=" + w for w in wraps)] if wraps else []
-        cmd = ["gcc", "-O1", "-std=gnu99", "-I" + os.path.join(wt, "include"), "-I" + os.path.join(wt, "src"), demo, os.path.join(wt, "src", "libskinny.a"), "-o", exe, "-lpthread", "-ldl"] + wl
+        hook = ["-DRWEATHER_SKINNY_C_VERIF"] if "_skinny_verif_backend_cap" in open(demo).read() else []
+        cmd = ["gcc", "-O1", "-std=gnu99"] + hook + ["-I" + os.path.join(wt, "include"), "-I" + os.path.join(wt, "src"), demo, os.path.join(wt, "src", "libskinny.a"), "-o", exe, "-lpthread", "-ldl"] + wl
     p = sh(cmd)
     return p
 
@@ -49,6 +50,9 @@ def run_demo(wt, demo, exe):
         demo = demo2
         p = sh(["bash", demo, wt], cwd=wt, timeout=600, env=dict(os.environ, TREE=wt, WT=wt, WORKTREE=wt, SKINNY_ROOT=wt, ROOT=wt, SRC=wt))
     else:
+        if "_skinny_verif_backend_cap" in open(demo).read():
+            # the demonstration pins back ends through the verification hook: it needs a library built with the guard on
+            sh(["make", "-C", os.path.join(wt, "src"), "clean", "all"], env=dict(os.environ, CFLAGS="-DRWEATHER_SKINNY_C_VERIF"))
         b = build_demo(wt, demo, exe)
         if b.returncode != 0:
             return None, "demo build failed: " + b.stdout[-800:]
